@@ -80,8 +80,8 @@ Section Stability.
 End Stability.
 
 (* non-vacuity: two same-named methods on different types (same Repr) are told apart by position *)
-Definition mA := {| o_id := 1; o_pkg := 7; o_name := 5; o_exported := true; o_path := Some 11 |}.
-Definition mB := {| o_id := 2; o_pkg := 7; o_name := 5; o_exported := true; o_path := Some 12 |}.
+Definition mA := {| o_id := 1; o_pkg := 7; o_name := 5; o_exported := true; o_dispatch := false; o_path := Some 11 |}.
+Definition mB := {| o_id := 2; o_pkg := 7; o_name := 5; o_exported := true; o_dispatch := false; o_path := Some 12 |}.
 Definition ex_view := {| v_pkg := 7; v_pos := fun o => (1, 10 * o_id o); v_upstream := [] |}.
 Example same_name_methods_differ :
   key_repr (KRet mA 0) = key_repr (KRet mB 0) /\ site_of ex_view (KRet mA 0) false <> site_of ex_view (KRet mB 0) false.
